@@ -292,6 +292,11 @@ pub fn run(run: &Run) {
     let distinct = crate::distinct::Distinct::new();
     let mut vals: Vec<V> = u::u_term(&f, tier).into_iter().map(V::term).collect();
     vals.extend(u::u_sent(&f));
+    // the property restricts names to letters, digits, '_' and inner '-' (the grammar's atom_char);
+    // the thorough name alphabet also has an emoji name, which is outside C11's quantifier
+    let before = vals.len();
+    vals.retain(|v| !v.term.any(&|n| n.name.chars().any(|c| !(c.is_alphanumeric() || c == '_' || c == '-'))));
+    run.count("enum_values_outside_the_grammar_name_class_skipped", (before - vals.len()) as u64);
     run.count("enum_values", vals.len() as u64);
     vals.par_iter().for_each(|v| {
         run.eval(1);
